@@ -13,6 +13,7 @@
 -/
 import HitenModel.Lemmas.C08NF
 import HitenModel.Lemmas.LieSeriesModel
+import HitenModel.Lemmas.LieSeriesIter
 import HitenModel.Gen.C08
 import Mathlib.Analysis.Complex.Norm
 
@@ -157,9 +158,10 @@ theorem lie_series_K_independent (tiny : K → Bool) (N n : Nat) (G : Poly K) (h
 `degree_bookkeeping` (`ad_G` raises degrees by `deg G - 2 ≥ 1`, hence is nilpotent modulo degree `> N`) and
 `lie_series_K_independent` (the Hamiltonian and the six coordinates are transformed by the *same* complete truncated
 series `Σ ad_G^k / k!`) these are the hypotheses of the textbook theorem "the exponential of a nilpotent derivation is an
-algebra automorphism" that gives `H_new = H_old ∘ Φ` modulo degree `N+1`.  That theorem itself, canonicity (Jacobi)
-and `forward ∘ inverse = id` are **not** formalised here: sentence 2 of the property is `partial` and is checked
-coefficient-wise / by fitted exponents on the real code by the harness. -/
+algebra automorphism" that gives `H_new = H_old ∘ Φ` modulo degree `N+1`.  That theorem IS formalised further down (section
+`LieSeriesProps`: `transform_is_composition` for one generator, `normal_form_is_composition_with_expansion` for the whole loop of
+`_lie_transform` against the map `_lie_expansion` builds).  Canonicity (Jacobi) of Φ and `forward ∘ inverse = id` are **not** formalised:
+that part of sentence 2 is checked coefficient-wise / by fitted exponents on the real code by the harness. -/
 theorem ad_is_derivation_partial (p q g : Poly K) :
     toMv (poisson (mul p q) g) = toMv p * toMv (poisson q g) + toMv (poisson p g) * toMv q ∧
     toMv (poisson (p ++ q) g) = toMv (poisson p g) + toMv (poisson q g) ∧
@@ -397,6 +399,104 @@ example : (∀ v ∈ ([(⟨2, 0, 0, 1, 0, 0⟩, (1 : ℚ)), (⟨0, 1, 1, 0, 1, 0
     simp only [List.mem_cons, List.not_mem_nil, or_false] at hv
     rcases hv with rfl | rfl <;> decide
   · decide
+
+/-! #### the whole loop (`Lemmas/LieSeriesIter.lean`)
+
+A generator list is `gs : List (ℕ × Poly K)` — (bracket count, generator), applied head first.  `iterSeries tiny N gs H0` is the loop
+`H := lieSeries tiny N K g H` over the list; `compMap tiny N gs` is the composed coordinate map `Ψ_[] i = x_i`,
+`Ψ_(gs ++ [g]) i = aeval Φ_g (Ψ_gs i)`, `Φ_g j = toMv (lieSeries tiny N K g x_j)`; as point maps `Ψ_[g1,…,gk] = Φ_{g1} ∘ … ∘ Φ_{gk}`. -/
+
+open HitenModel.LieSeries in
+/-- **iterated_transform_is_composition** (any number of generators): for generators without terms of degree `< 3`, each applied with at
+least `N` brackets, exact cleaning, every coefficient of degree `≤ N` of the result of the whole loop is the coefficient of
+`H_0 ∘ Ψ_gs`, the ORIGINAL polynomial composed with the composed coordinate map. -/
+theorem iterated_transform_is_composition {tiny : K → Bool} (htiny : ∀ c, tiny c = true → c = 0) (N : Nat)
+    (gs : List (Nat × Poly K)) (hK : ∀ kg ∈ gs, N ≤ kg.1) (hG : ∀ kg ∈ gs, ∀ v ∈ kg.2, 3 ≤ v.1.deg) (H0 : Poly K)
+    (m : Mono) (hm : m.deg ≤ N) :
+    coeff (iterSeries tiny N gs H0) m =
+      MvPolynomial.coeff m.toFinsupp (MvPolynomial.aeval (compMap tiny N gs) (toMv H0)) :=
+  iterated_lie_series_is_composition_coeff htiny N gs hK hG H0 m hm
+
+open HitenModel.LieSeries in
+/-- **iterated_coordinates_are_the_composed_map**: the same loop started from the coordinate polynomial `x_i` (what `_lie_expansion` does
+with the identity coordinates) produces, in every coefficient of degree `≤ N`, the `i`-th component of the SAME composed map `Ψ_gs`. -/
+theorem iterated_coordinates_are_the_composed_map {tiny : K → Bool} (htiny : ∀ c, tiny c = true → c = 0) (N : Nat)
+    (gs : List (Nat × Poly K)) (hK : ∀ kg ∈ gs, N ≤ kg.1) (hG : ∀ kg ∈ gs, ∀ v ∈ kg.2, 3 ≤ v.1.deg) (i : Fin 6)
+    (m : Mono) (hm : m.deg ≤ N) :
+    coeff (iterSeries tiny N gs (coordPoly i)) m = MvPolynomial.coeff m.toFinsupp (compMap tiny N gs i) := by
+  rw [← coeff_toMv]
+  exact (iterated_coords_cong htiny N gs (fun kg h => Or.inl (hK kg h)) hG i).coeff_eq _ (by rw [toFinsupp_degree]; exact hm)
+
+open HitenModel.LieSeries in
+/-- **normal_form_loop_is_iteration**: the loop of `_lie_transform` IS such an iteration (identities of term lists): the returned
+Hamiltonian is `iterSeries` over the generators `loopGens` of the passes that were not skipped, the returned generator is the cleaned
+concatenation of these generators; each of them is homogeneous of its pass degree `n`, `3 ≤ n ≤ N`, and is applied with
+`Kpoly N n ≥ N` brackets. -/
+theorem normal_form_loop_is_iteration (c : Cfg K) (H : Poly K) :
+    (lieTransform c H).trans = iterSeries c.tiny c.N (loopGens c ⟨H, [], []⟩ (c.N - 2)) H ∧
+    (lieTransform c H).G = clean c.tiny ((loopGens c ⟨H, [], []⟩ (c.N - 2)).map Prod.snd).flatten ∧
+    ∀ kg ∈ loopGens c ⟨H, [], []⟩ (c.N - 2),
+      ∃ n, 3 ≤ n ∧ n ≤ c.N ∧ kg.1 = Kpoly c.N n ∧ c.N ≤ kg.1 ∧ ∀ v ∈ kg.2, v.1.deg = n := by
+  obtain ⟨h1, h2⟩ := lieLoop_trans_G c ⟨H, [], []⟩ (c.N - 2)
+  refine ⟨h1, ?_, fun kg h => ?_⟩
+  · show clean c.tiny (lieLoop c ⟨H, [], []⟩ (c.N - 2)).G = _
+    rw [h2]; rfl
+  · obtain ⟨n, h3, hlt, hk, hd⟩ := loopGens_spec h
+    exact ⟨n, h3, by omega, hk, by rw [hk]; exact Kpoly_ge h3, hd⟩
+
+open HitenModel.LieSeries in
+/-- **normal_form_is_composition**: for every configuration with exact cleaning, every degree `N` and EVERY input polynomial, each
+coefficient of degree `≤ N` of the Hamiltonian returned by `_lie_transform` is the coefficient of `H_in ∘ Ψ`, `Ψ` the composed coordinate
+map of the generators the loop produced. -/
+theorem normal_form_is_composition (c : Cfg K) (htiny : ∀ x, c.tiny x = true → x = 0) (H : Poly K) (m : Mono) (hm : m.deg ≤ c.N) :
+    coeff (lieTransform c H).trans m =
+      MvPolynomial.coeff m.toFinsupp
+        (MvPolynomial.aeval (compMap c.tiny c.N (loopGens c ⟨H, [], []⟩ (c.N - 2))) (toMv H)) := by
+  rw [← coeff_toMv]
+  exact (lieLoop_is_composition c htiny ⟨H, [], []⟩ (c.N - 2)).coeff_eq _ (by rw [toFinsupp_degree]; exact hm)
+
+open HitenModel.LieSeries in
+/-- **lie_expansion_is_composed_map**: the `i`-th polynomial returned by `_lie_expansion` (unrestricted; forward `n = 3..N` or inverse
+`n = N..3`; any `sign`; any `poly_G_total`) is, in every coefficient of degree `≤ N`, the `i`-th component of the composed coordinate map
+of its generator list `expansionGens` (`G_n = sign · block n Gtot`, empty blocks skipped, bracket counts `Kcoord`) — exact cleaning is the
+only hypothesis.  See `LieSeries.lieExpansion_is_psiFn` for the `tiny`-free description `Φ_{n1} ∘ … ∘ Φ_{nk}`, `Φ_n = exp(ad_{G_n})`. -/
+theorem lie_expansion_is_composed_map {tiny : K → Bool} (htiny : ∀ c, tiny c = true → c = 0) (N : Nat) (Gtot : Poly K)
+    (inverse : Bool) (sign : K) (i : Fin 6) (m : Mono) (hm : m.deg ≤ N) :
+    coeff ((lieExpansion tiny N Gtot inverse sign false).getD i.val []) m =
+      MvPolynomial.coeff m.toFinsupp (compMap tiny N (expansionGens N Gtot inverse sign) i) := by
+  rw [← coeff_toMv, lieExpansion_getD]
+  exact (iterated_coords_cong htiny N _ expansionGens_K expansionGens_deg i).coeff_eq _ (by rw [toFinsupp_degree]; exact hm)
+
+open HitenModel.LieSeries in
+/-- **normal_form_is_composition_with_expansion** — sentence 2 on the model of the whole computation: for every configuration with exact
+cleaning, every `N` and every input `H`, each coefficient of degree `≤ N` of the Hamiltonian returned by `_lie_transform` is the
+coefficient of `H ∘ Ψ`, where `Ψ_i` is the `i`-th polynomial `_lie_expansion` (forward, `sign = +1`, unrestricted) computes from the
+generator `poly_G_total` RETURNED by `_lie_transform`: "the transformed Hamiltonian equals the old Hamiltonian composed with the
+generated canonical transformation".  (Not covered here: canonicity of `Ψ`, `inverse ∘ forward = id`, float rounding, `restrict=True`.) -/
+theorem normal_form_is_composition_with_expansion (c : Cfg K) (htiny : ∀ x, c.tiny x = true → x = 0) (H : Poly K)
+    (m : Mono) (hm : m.deg ≤ c.N) :
+    coeff (lieTransform c H).trans m =
+      MvPolynomial.coeff m.toFinsupp
+        (MvPolynomial.aeval
+          (fun i : Fin 6 => toMv ((lieExpansion c.tiny c.N (lieTransform c H).G false 1 false).getD i.val [])) (toMv H)) := by
+  rw [← coeff_toMv]
+  exact (lieTransform_is_composition_with_expansion c htiny H).coeff_eq _ (by rw [toFinsupp_degree]; exact hm)
+
+/-- non-vacuity: two explicit generators of degree 3 and 4 over ℚ, `N = 4`, four brackets each, satisfy the hypotheses of
+`iterated_transform_is_composition`; exact cleaning is `tiny c ⇔ c = 0` -/
+example :
+    let gs : List (Nat × Poly ℚ) :=
+      [(4, [(⟨2, 0, 0, 1, 0, 0⟩, 1), (⟨0, 1, 1, 0, 1, 0⟩, 3)]), (4, [(⟨2, 0, 0, 2, 0, 0⟩, 5), (⟨1, 1, 1, 0, 0, 1⟩, -2)])]
+    (∀ kg ∈ gs, 4 ≤ kg.1) ∧ (∀ kg ∈ gs, ∀ v ∈ kg.2, 3 ≤ v.1.deg) ∧ (∀ c : ℚ, decide (c = 0) = true → c = 0) := by
+  intro gs
+  refine ⟨?_, ?_, fun c hc => by simpa using hc⟩
+  · intro kg hkg
+    simp only [gs, List.mem_cons, List.not_mem_nil, or_false] at hkg
+    rcases hkg with rfl | rfl <;> decide
+  · intro kg hkg v hv
+    simp only [gs, List.mem_cons, List.not_mem_nil, or_false] at hkg
+    rcases hkg with rfl | rfl <;>
+      (simp only [List.mem_cons, List.not_mem_nil, or_false] at hv; rcases hv with rfl | rfl <;> decide)
 
 end LieSeriesProps
 
